@@ -14,6 +14,7 @@ import (
 	"fmt"
 	"strings"
 	"sync"
+	"sync/atomic"
 	"time"
 
 	"github.com/notaryproject/notation-core-go/revocation"
@@ -36,6 +37,7 @@ type vecRev struct {
 	calls   int
 	chain   []*x509.Certificate
 	st      time.Time
+	noSrv   bool // verdicts only: no per-server results at all (a validator need not consult servers to know)
 }
 
 func (r *vecRev) ValidateContext(ctx context.Context, o revocation.ValidateContextOptions) ([]*result.CertRevocationResult, error) {
@@ -55,6 +57,9 @@ func (r *vecRev) ValidateContext(ctx context.Context, o revocation.ValidateConte
 			sr[0].Error = errors.New("server error")
 			sr = append(sr, &result.ServerResult{Result: v, Server: "http://crl/" + fmt.Sprint(i), RevocationMethod: result.RevocationMethodCRL, Error: errors.New("second server error")})
 		}
+		if r.noSrv {
+			sr = nil
+		}
 		out[i] = &result.CertRevocationResult{Result: v, RevocationMethod: m, ServerResults: sr}
 	}
 	return out, nil
@@ -64,6 +69,18 @@ type legacy struct{ r *vecRev }
 
 func (l legacy) Validate(chain []*x509.Certificate, t time.Time) ([]*result.CertRevocationResult, error) {
 	return l.r.ValidateContext(context.Background(), revocation.ValidateContextOptions{CertChain: chain, AuthenticSigningTime: t})
+}
+
+// dual is a deprecated-interface client whose type ALSO has the context-aware method (a wrapper embedding a newer
+// validator, say). Supplied as RevocationClient, it is its Validate that speaks; ValidateContext would answer all-OK.
+type dual struct {
+	legacy
+	ctxCalls *int32
+}
+
+func (d dual) ValidateContext(ctx context.Context, o revocation.ValidateContextOptions) ([]*result.CertRevocationResult, error) {
+	atomic.AddInt32(d.ctxCalls, 1)
+	return lib.OKRev{}.ValidateContext(ctx, o)
 }
 
 type cfg struct {
@@ -173,9 +190,12 @@ func main() {
 		if c.Scheme != "notary.x509" {
 			storeType = "signingAuthority"
 		}
-		rv := &vecRev{vec: c.Vec, err: c.VErr, methods: c.Methods, srvErr: c.SrvErr}
+		rv := &vecRev{vec: c.Vec, err: c.VErr, methods: c.Methods, srvErr: c.SrvErr, noSrv: i%5 == 2}
+		var dualCtxCalls int32
 		opts := verifier.VerifierOptions{OCITrustPolicy: lib.OCIPolicy(c.L.SV(i), []string{storeType + ":x"}, []string{"*"}), RevocationTimestampingValidator: lib.OKRev{}}
-		if c.Legacy {
+		if c.Legacy && i%3 == 0 {
+			opts.RevocationClient = dual{legacy{rv}, &dualCtxCalls}
+		} else if c.Legacy {
 			opts.RevocationClient = legacy{rv}
 		} else {
 			opts.RevocationCodeSigningValidator = rv
@@ -185,7 +205,9 @@ func main() {
 		}
 		var v notation.Verifier
 		var err error
-		mts := lib.NewMemTS().Put(storeType+":x", set.chain[len(set.chain)-1])
+		// the trust anchor is the root, an intermediate or the leaf itself: the validator still gets the whole chain
+		anchor := set.chain[len(set.chain)-1-(i/3)%len(set.chain)]
+		mts := lib.NewMemTS().Put(storeType+":x", anchor)
 		if (i/6)%2 == 1 { // alternates per block of (interface x action) so that every combination meets both constructors
 			// the deprecated constructor must select the same validator
 			o2 := opts
@@ -230,6 +252,10 @@ func main() {
 			return
 		}
 		// argument monitor
+		if dualCtxCalls != 0 {
+			r.Violation(sigm("wrong-interface-consulted"), fmt.Sprintf("the value supplied as deprecated RevocationClient had its ValidateContext called %d times (its Validate %d times)", dualCtxCalls, rv.calls), wit)
+			return
+		}
 		if rv.calls != 1 {
 			r.Violation(sigm("validator-call-count"), fmt.Sprintf("validator consulted %d times", rv.calls), wit)
 			return
